@@ -196,13 +196,13 @@ def kind_pairs(vary_s, ty=""):
 # compiling
 # ------------------------------------------------------------------------------------------
 
-def locate_rlib(ctx):
+def locate_rlib(ctx, bin_name="emlv-C20"):
     """The easy_ml rlib the harness of this run was linked with, and its deps directory."""
     env = dict(ctx["env"])
     env["RUSTFLAGS"] = env.get("RUSTFLAGS", "") + " -Awarnings"
     cmd = ["cargo", "build", "--offline", "--quiet", "--message-format=json", "--target-dir", ctx["harness_target_dir"]]
-    if os.path.exists(os.path.join(ctx["root"], "harness", "src", "bin", "emlv-C20.rs")):
-        cmd += ["--bin", "emlv-C20"]      # one binary per property: only ours (and easy-ml) is needed
+    if os.path.exists(os.path.join(ctx["root"], "harness", "src", "bin", bin_name + ".rs")):
+        cmd += ["--bin", bin_name]      # one binary per property: only ours (and easy-ml) is needed
     rc, out, err = ctx["sh"](cmd, cwd=ctx.get("harness_dir") or os.path.join(ctx["root"], "harness"), check=False, env=env, timeout=1800)
     if rc != 0:
         raise ctx["MachineryError"]("cargo build (to locate the rlib) failed:\n" + err[-3000:])
@@ -346,7 +346,7 @@ def run(ctx):
             hand.append({"id": fn[:-3], "path": path, "rule": rule, "expect": expect})
     n_hand_files = len(hand)
     # ---- generated lifetime-relation probes (entry point x receiver kind) -----------------------
-    life = c20_lifetimes.generate(os.path.join(work, "life"))
+    life = c20_lifetimes.generate(os.path.join(work, "life"), ctx["repo"])
     hand += life
     uncovered, n_entry_points = c20_lifetimes.coverage(ctx["repo"])
     # ---- generated auto-trait probes ----------------------------------------------------------
